@@ -295,6 +295,9 @@ class TranslatorC(Translator):
                 args = [self.from_expr(arg)
                         for arg in expr.args]
                 if expr.size <= self.NATIVE_INT_MAX_SIZE:
+                    # compute in uint64_t: uint16_t operands would be promoted
+                    # to (signed) int, whose multiplication may overflow
+                    args[0] = "((uint64_t)%s)" % args[0]
                     out = (" %s " % expr.op).join(args)
                     out = "((%s)&%s)" % (out, self._size2mask(expr.size))
                 else:
@@ -475,6 +478,8 @@ class TranslatorC(Translator):
                 self._size2mask(arg.size),
             )
                     for arg in expr.args]
+            # same promotion issue as above
+            oper[0] = "((uint64_t)%s)" % oper[0]
             oper = str(expr.op).join(oper)
             return "((%s)&%s)" % (
                 oper,
